@@ -208,3 +208,20 @@ def resolve_local(fn, name: str, before: ast.AST = None) -> Optional[ast.AST]:
         elif isinstance(n, ast.AnnAssign) and isinstance(n.target, ast.Name) and n.target.id == name and n.value:
             vals.append(n.value)
     return vals[0] if len(vals) == 1 else None
+
+
+def paths_to(cfg: CFG, site: int, start: int = None, loop_bound: int = 1, max_paths: int = 50000):
+    """All (bounded) paths from `start` (default function entry) that reach `site`."""
+    start = cfg.entry if start is None else start
+    can = _can_reach(cfg, site)
+    ps = cfg.paths(start, stop=lambda s, l, d: d == site or d not in can, loop_bound=loop_bound, max_paths=max_paths)
+    return [p for p in ps if p.steps and p.steps[-1][2] == site]
+
+
+def always_at(cfg: CFG, site: int, formula: str, start: int = None, loop_bound: int = 1):
+    """(holds, witness path) - formula known true on every path reaching site."""
+    ps = paths_to(cfg, site, start, loop_bound)
+    for p in ps:
+        if p.facts.known(formula) is not True:
+            return False, p, len(ps)
+    return bool(ps), None, len(ps)
